@@ -397,6 +397,119 @@ Proof.
     { destruct HLc; reflexivity. }
     rewrite Hlast in R2. repeat split; assumption.
 Qed.
+
+(* ---- the converse: a generated cell that is true at p comes from the element and the
+   descent that locate p.  C05's Den is partial (a tree has a value only where its
+   surfaces and cells exist), so "defined" hypotheses are needed: every descent below the
+   container has a value at p, and the lattice cell has a value everywhere. ------------- *)
+Lemma Forall2_In_r {A B} (R : A -> B -> Prop) l l' b :
+  Forall2 R l l' -> In b l' -> exists a, In a l /\ R a b.
+Proof.
+  induction 1 as [|x y l l' Hxy _ IH]; intros Hin; [contradiction|].
+  destruct Hin as [<-|Hin]; [exists x; split; [now left|exact Hxy]|].
+  destruct (IH Hin) as (a & Ha & Hr). exists a. split; [now right|exact Hr].
+Qed.
+
+Ltac split_andb :=
+  match goal with
+  | H : (?a && ?b)%bool = true |- _ => apply andb_true_iff in H; destruct H as [-> ->]
+  | H : true = (?a && ?b)%bool |- _ => symmetry in H; apply andb_true_iff in H; destruct H as [-> ->]
+  end.
+
+Theorem lattice_end_to_end_linked_conv :
+  exists elems, develop_lattice_with RS (Ok vecs) cell = Ok elems /\
+  forall (fuel cf : nat) (s0 s1 s2 : state) (latkey : Z) (lcl : cell5) (keys : list Z)
+         (du : list (Z * list Z)) (ifd ifg : bool) (key : Z) (kcl : cell5) (U : Z) (ks : list Z),
+  Forall (fun e : relem => inverse_of (ne_trnsf e) /\ inverse_of (ne_filltr e)) elems ->
+  Inv s0 -> M5.dget latkey (M5.s_cells s0) = Some lcl ->
+  develop_state fuel latkey elems s0 = M5.Ok (keys, s1) ->
+  M5.dget key (M5.s_cells s1) = Some kcl -> M5.c_fill kcl = Some U ->
+  (* the lattice universe consists of the element cells, and only of them *)
+  (forall k, In k (M5.du_get U du) -> In k keys) ->
+  (forall c cl, M5.dget c (M5.s_cells s1) = Some cl -> M5.c_orig cl = []) ->
+  (forall u c, In c (M5.du_get u du) -> exists cl, M5.dget c (M5.s_cells s1) = Some cl) ->
+  M5.pot_fill T surf tr_empty teqb tr_surf fuel cf du ifd ifg key s1 = M5.Ok (ks, s2) ->
+  forall p, let p' := S5.frame T rvec tr_empty inv kcl p in
+  (* definedness *)
+  (forall ch chs, S5.Paths T surf s1 du key chs -> In ch chs -> exists b, LocB s1 du key p ch b) ->
+  (forall q, exists b, Den s0 q (M5.TRef latkey) b) ->
+  forall k ncl, In k ks -> M5.dget k (M5.s_cells s2) = Some ncl -> Den s2 p (M5.TRef k) true ->
+  exists idx, in_ranges idx bs /\
+    let t := lattice_point vecs idx in
+    let u := nth (Z.to_nat (flat_index bs idx)) spec 0%Z in
+    u <> 0%Z /\ Den s1 p (M5.c_geom kcl) true /\ Den s0 (vdiff RS p' t) (M5.TRef latkey) true /\
+    ((u = lc_universe cell /\ M5.c_mat ncl = M5.c_mat lcl /\ M5.c_rho ncl = M5.c_rho lcl) \/
+     (u <> lc_universe cell /\
+      exists q c ch lfl, In c (M5.du_get u du) /\ p' = vadd RS (placement cell q) t /\
+        Located s1 du c q ch /\ M5.dget (last ch 0%Z) (M5.s_cells s1) = Some lfl /\
+        M5.c_mat ncl = M5.c_mat lfl /\ M5.c_rho ncl = M5.c_rho lfl)).
+Proof.
+  destruct (develop_lattice_located_ranges cell vecs bs spec Hfill Hne Hwf Hlen Hn Hpad Hshape)
+    as (elems & H1 & H2 & _ & H4).
+  exists elems. split; [exact H1|].
+  intros fuel cf s0 s1 s2 latkey lcl keys du ifd ifg key kcl U ks Hinv HI0 Hlat Hdev Hkey HU Hkeys
+         Horig Hdu Hpf p p' Hdef Hdef0 k ncl Hk Hncl Htrue.
+  pose proof (develop_lattice_is12 cell vecs elems Hshape H1) as H12.
+  assert (Hnn : Forall (fun e : relem => is_nil (ne_trnsf e) = false) elems).
+  { eapply Forall_impl; [|exact H12]. intros e [A _]. now apply is12_not_nil. }
+  destruct (develop_state_spec fuel latkey lcl elems s0 keys s1 HI0 Hlat Hnn Hdev) as (HI1 & Hx01 & HF).
+  destruct (P5.pot_fill_located T surf rvec tr_empty teqb tr_surf inv sense sense_tr teqb_sound
+              fuel cf du ifd ifg key s1 ks s2 HI1 Horig Hdu (ex_intro _ kcl Hkey) Hpf)
+    as (_ & _ & chs & HP & HRep & _).
+  destruct (Forall2_In_l _ _ _ k HRep Hk) as (ch & Hch & (ncl' & lfl & R1 & R2 & _ & _ & R5 & R6 & R7 & _)).
+  rewrite Hncl in R1. injection R1 as <-.
+  destruct (Hdef ch chs HP Hch) as (b & HL).
+  assert (Hb : b = true).
+  { pose proof (R7 p b HL) as HD.
+    destruct (P5.Den_ref_inv T surf rvec sense _ _ _ _ Htrue) as (cl0 & Hc0 & Hg0).
+    rewrite Hncl in Hc0. injection Hc0 as <-.
+    exact (proj1 (P5.Den_fun T surf rvec sense s2 p) _ _ HD _ Hg0). }
+  subst b.
+  (* the container level *)
+  inversion HL as [? cl0 ? ? Hc0 Hf0 _ | ? cl0 u0 ? c0 chain b1 b2 Hc0 Hf0 Hin0 HD0 HL0 E1 E2 E3 E4];
+    subst; rewrite Hkey in Hc0; injection Hc0 as <-; [rewrite HU in Hf0; discriminate|].
+  rewrite HU in Hf0. injection Hf0 as <-.
+  split_andb.
+  fold p' in HL0.
+  destruct (Forall2_In_r _ _ _ c0 HF (Hkeys _ Hin0)) as (e & He & (cl & Hcl & Ef & Eft & Em & Er & Eo & _ & HD)).
+  rewrite Forall_forall in H4, H12, Hinv.
+  destruct (H4 e He) as (Hrange & Hu & (Htr & Hf & Hftr)). cbv zeta in Hu, Htr, Hf, Hftr.
+  destruct (H12 e He) as [H12a H12b]. destruct (Hinv e He) as [[Ia1 Ia2] [Ib1 Ib2]].
+  exists (ne_index e). split; [exact Hrange|]. cbv zeta.
+  set (t := lattice_point vecs (ne_index e)) in *.
+  set (u := nth (Z.to_nat (flat_index bs (ne_index e))) spec 0%Z) in *.
+  assert (Hpull : inv (ne_trnsf e) p' = vdiff RS p' t).
+  { rewrite <- (vadd_vdiff p' t) at 1. rewrite <- Htr. apply Ia2. }
+  (* the element cell is true at p', hence the unit cell at p' - t *)
+  assert (Hunit : forall cle, M5.dget c0 (M5.s_cells s1) = Some cle -> Den s1 p' (M5.c_geom cle) true ->
+                              Den s0 (vdiff RS p' t) (M5.TRef latkey) true).
+  { intros cle Hcle Hg. destruct (Hdef0 (inv (ne_trnsf e) p')) as (b0 & Hb0).
+    pose proof (HD p' b0 Hb0) as Hf1.
+    assert (Ht1 : Den s1 p' (M5.TRef c0) true) by (eapply S5.DRef; eauto).
+    rewrite (proj1 (P5.Den_fun T surf rvec sense s1 p') _ _ Hf1 _ Ht1) in Hb0.
+    rewrite Hpull in Hb0. exact Hb0. }
+  split; [exact Hu|]. split; [exact HD0|].
+  inversion HL0 as [? cle ? ? Hce Hfe HDe | ? cle u1 ? c1 chain1 b1 b2 Hce Hfe Hin1 HDe HL1 F1 F2 F3 F4]; subst.
+  - (* the element is a leaf: own universe *)
+    split; [exact (Hunit cle Hce HDe)|]. left.
+    rewrite Hcl in Hce. injection Hce as <-.
+    rewrite Ef, Hf in Hfe. destruct (u =? lc_universe cell)%Z eqn:Eu; [|discriminate].
+    cbn [last] in R2. rewrite Hcl in R2. injection R2 as <-.
+    split; [lia|]. split; [now rewrite R5|now rewrite R6].
+  - split_andb.
+    split; [exact (Hunit cle Hce HDe)|]. right.
+    rewrite Hcl in Hce. injection Hce as <-.
+    rewrite Ef, Hf in Hfe. destruct (u =? lc_universe cell)%Z eqn:Eu; [discriminate|]. injection Hfe as <-.
+    split; [lia|].
+    assert (Hframe : S5.frame T rvec tr_empty inv cl p' = inv (ne_filltr e) p')
+      by (unfold S5.frame; rewrite Eft, (is12_not_nil _ H12b); reflexivity).
+    rewrite Hframe in HL1.
+    exists (inv (ne_filltr e) p'), c1, chain1, lfl. split; [exact Hin1|]. split.
+    + rewrite <- Hftr. symmetry. apply Ib1.
+    + split; [exact HL1|].
+      assert (Hlast : last (key :: c0 :: chain1) 0%Z = last chain1 0%Z) by (destruct HL1; reflexivity).
+      rewrite Hlast in R2. now repeat split.
+Qed.
 End Linked.
 End Link.
 
